@@ -113,7 +113,13 @@ NoSurplus(d, gs) ==
     /\ (f.kind = "alt" /\ f.arity \in {"one", "opt", "fallback", "fallback_with"}) =>
           /\ Cardinality({b \in DOMAIN f.branches : \E it \in RangeOf(f.branches[b].fields) : it.kind # "pos" /\ gs.acc[it.id] # <<>>}) <= 1
           /\ \A it \in BranchLeaves(f) : SingleUse(it) => Len(gs.acc[it.id]) <= 1
+\* a level may declare its positional items IN FRONT of its (name-led) adjacent groups: they are looked for first and
+\* take the first words of the line - also a word typed inside a block, which is thereby cut short
+PosFirst(d) == "pos_first" \in DOMAIN d /\ d.pos_first /\ d.tail.kind = "pos"
 GWord(d, gs, w) ==
+  IF PosFirst(d) /\ Len(gs.pos) < Len(d.tail.items)
+  THEN LET s1 == Close(d, gs) IN [s1 EXCEPT !.pos = Append(@, [w |-> w, after |-> FALSE, p |-> s1.n])]
+  ELSE
   IF gs.open.k # 0 /\ Len(gs.open.words) < Len(PosMembers(d.named[gs.open.k]))
   THEN AutoClose(d, [gs EXCEPT !.open.words = Append(@, w)])
   ELSE LET s1 == Close(d, gs)  ks == CmdHeadOf(d, w) IN
@@ -379,7 +385,8 @@ GFinish(d, gs0, envv) ==
              rest == IF PA = {} THEN gs.pos ELSE fv[MinOf(PA)].pool IN
       IF d.tail.kind = "pos"
       THEN LET r == AssignPos(d.tail.items, rest, <<>>) IN
-           IF r.ok THEN [class |-> "ok", value |-> [t |-> base \o r.vals]] ELSE [class |-> "stderr", why |-> r.why]
+           IF r.ok THEN [class |-> "ok", value |-> [t |-> IF PosFirst(d) THEN r.vals \o base ELSE base \o r.vals]]
+           ELSE [class |-> "stderr", why |-> r.why]
       ELSE IF rest = <<>> THEN [class |-> "ok", value |-> [t |-> base]]
       ELSE [class |-> "stderr", why |-> [k |-> "surplus"]]
 
